@@ -79,7 +79,8 @@ def abstract(ops, group, names):
     return out, codes
 
 
-def scenario(ctx, rng, kind, exe=None):
+def scenario(ctx, rng, kind, exe=None, fault=None):
+    """fault = (syscall, errno, ordinal among the calls of that name on storage paths): the run meets one failing storage call"""
     with slevel.Sandbox("c12") as sb:
         if kind == "first":
             H = runs.History(ctx, sb, rng, "C12", 3, 3)
@@ -110,14 +111,57 @@ def scenario(ctx, rng, kind, exe=None):
         before, _ = runs.listing(H.dec)
         name = H.name_of_now()
         tf = sb.path("trace.txt")
-        rc, out = sb.vsb(["backup", "w"], now=H.now, prefix=trace.strace_cmd(tf, trace.STORAGE_CALLS), exe=exe)
+        inject = None
+        if fault is not None:
+            # the ordinal counts every call of that name in the process; locate the k-th one on a storage path in a dry reference run
+            # on a copy of the storage
+            import shutil
+            ref_st = sb.path("refcopy")
+            shutil.copytree(H.w.st, ref_st, symlinks=True)
+            tf0 = sb.path("trace0.txt")
+            rc0, out0 = sb.vsb(["backup", "w"], now=H.now, prefix=trace.strace_cmd(tf0, trace.STORAGE_CALLS), exe=exe)
+            ev0 = trace.parse(tf0)
+            pid0 = ev0[0]["pid"] if ev0 else None
+            allc = [e for e in ev0 if e.get("name") == fault[0] and e["pid"] == pid0]
+            onst = [i for i, e in enumerate(allc, 1) if H.w.st in e.get("raw", "")]
+            # restore the storage to its state before the reference run
+            shutil.rmtree(H.w.st)
+            os.rename(ref_st, H.w.st)
+            if fault[2] >= len(onst):
+                ctx.count("fault.no-such-call")
+                return
+            inject = ["%s:error=%s:when=%d" % (fault[0], fault[1], onst[fault[2]])]
+        rc, out = sb.vsb(["backup", "w"], now=H.now, prefix=trace.strace_cmd(tf, trace.STORAGE_CALLS, inject=inject), exe=exe)
         events = trace.parse(tf)
         main_pid = events[0]["pid"] if events else None
         ops = trace.project([e for e in events if e["pid"] == main_pid], H.w.st)
         after, _ = runs.listing(H.w.decode())
         groups_with = [g for g, fin, _, _ in after if name in fin]
         ctx.evaluations += 1
-        ctx.count("scenario." + kind)
+        ctx.count("scenario." + kind + (".fault-%s-%d" % (fault[0], fault[2]) if fault else ""))
+        if fault is not None:
+            # a run that met a failing storage call: whatever it went on to do must still be crash-safe at every point, and it must not
+            # report success over operations that did not happen
+            group = groups_with[0] if groups_with else (before[-1][0] if before and kind != "rotate" else time.strftime("%Y.%m.%d", time.gmtime(H.now)))
+            names = {}
+            gb = [x for x in before if x[0] == group]
+            finals = [names.setdefault(n, len(names) + 1) for n in (gb[0][1] if gb else [])]
+            temps = [names.setdefault(n.lstrip("."), len(names) + 1) for n in (gb[0][2] if gb else [])]
+            wire, codes = abstract(ops, group, names)
+            short = re.sub(r"w+", "w", re.sub(r"W+", "W", codes))
+            failed = [o for o in ops if o.get("rel") is not None and not o.get("ok", True) and o["op"] == ("fsync" if fault[0] == "fsync" else o["op"])]
+            ctx.nontrivial.add((kind, "fault", fault, short))
+            res = model.run_driver([[1200, [finals, temps, wire]]])[0]
+            desc = {"scenario": kind, "fault": list(fault), "group": group, "ops": short, "exit": rc, "failed_calls": len(failed)}
+            ctx.sample(desc)
+            if res[0] != 0 or not res[1]:
+                k = res[2] if res[0] == 0 else -1
+                ctx.violation("durable-fault", "with %s #%d on the storage failing (%s), the run goes on to operations that are NOT crash-safe: the durability checker rejects "
+                              "operation %d (%s) of the projected trace %s (failed calls flush nothing); exit status %d"
+                              % (fault[0], fault[2] + 1, fault[1], k, wire[k] if 0 <= k < len(wire) else "?", short, rc),
+                              {"case": desc, "ops": wire, "rejected_at": k, "codes": codes, "output": out[-500:]})
+            ctx.traces += 1
+            return
         if rc != 0 or not groups_with:
             ctx.violation("trace", "scenario %s: the run did not publish (exit %d)" % (kind, rc), {"output": out[-600:]}, failing_input=False)
             return
@@ -154,9 +198,11 @@ def run(ctx):
     build.ensure_vsbh()
     reps = 8 if thorough else 2
     ctx.rule = ("4 scenarios (first backup in an empty storage; append to the newest group; rotation with removal of the old group, limits 1x1; "
-                "reuse of a group holding an abandoned temporary) x %d generated trees each%s; every run is traced and its storage-side calls "
+                "reuse of a group holding an abandoned temporary) x %d generated trees each%s; plus runs in which one storage call fails (each of the four "
+                "fsyncs, the rename%s; located by ordinal in a reference run on a copy of the storage, injected with strace) - a failed call flushes "
+                "nothing and what the run does afterwards must still pass the checker; every run is traced and its storage-side calls "
                 "projected to abstract operations. Non-trivial: every traced run; distinct by (scenario, operation pattern, number of operations)."
-                % (reps, ", debug and release builds" if thorough else ""))
+                % (reps, ", debug and release builds" if thorough else "", ", writes, an open" if thorough else ""))
     exes = [None]
     if thorough:
         exes.append(build.ensure_vsb(release=True))
@@ -164,6 +210,15 @@ def run(ctx):
         for kind in ("first", "append", "rotate", "temp"):
             for _ in range(reps):
                 scenario(ctx, rng, kind, exe)
+                if len(ctx.violations) >= 3:
+                    return
+        # one failing storage call per run: each of the four fsyncs, the rename, and (thorough) a write
+        faults = [("fsync", "EIO", k) for k in range(4)] + [("rename", "EIO", 0)]
+        if thorough:
+            faults += [("write", "ENOSPC", 0), ("write", "EIO", 1), ("fdatasync", "EIO", 0), ("openat", "EACCES", 3)]
+        for kind in (("rotate", "append", "temp") if thorough else ("rotate",)):
+            for f in faults:
+                scenario(ctx, rng, kind, exe, fault=f)
                 if len(ctx.violations) >= 3:
                     return
     ctx.assumptions += ["the kernel honours fsync: file data persists by fsync(file), directory entries by fsync(directory) - the property's own model",
